@@ -1396,7 +1396,9 @@ static bool scaleBlowup(const Model* m)
     for (int d = 0; d < (int)cv->getNDim(); d++)
     {
       double rg = cv->getRange(d);
-      if (!std::isfinite(rg) || !std::isfinite(sc) || !(rg / sc > 1e-9)) return true;
+      // ("fitted range = inf" of the finding also shows as a finite but absurd value, e.g. 1.6e38, when scadef = 20^(1/param) is
+      // only close to the overflow)
+      if (!std::isfinite(rg) || !std::isfinite(sc) || !(rg / sc > 1e-9) || rg > 1e30) return true;
     }
   }
   return false;
